@@ -336,6 +336,9 @@ func (c *Cluster) opFairCycle(s *Step) {
 	live := c.liveBabbling()
 	for _, a := range live {
 		for _, b := range live {
+			if abortRun.Load() {
+				return // wall-clock guard: the run is being abandoned (no liveness verdict)
+			}
 			if a == b || !a.running() || !b.running() {
 				continue
 			}
